@@ -373,3 +373,70 @@ pub fn ascending_hint_sections(g: &mut Prng, p: &Params) -> Vec<Vec<u8>> {
     }
     out
 }
+
+
+/// An accepted private key (all s1/s2 fields in range) constructed so that coefficient `n` of row `k` of
+/// t = A*s1 + s2 wraps before reduction: A*s1 lands within eta of q (`high`) or of 0 (`!high`) and s2
+/// pushes it across. Two coefficients of s1 are solved for (meet in the middle over all single-
+/// coefficient changes). Returns None if no pair exists for this random base.
+pub fn wrap_sk(g: &mut Prng, p: &Params, k: usize, n: usize, high: bool) -> Option<Vec<u8>> {
+    use std::collections::HashMap;
+    let q = r::Q;
+    let rho = g.bytes(32);
+    let key = g.bytes(32);
+    let tr = g.bytes(64);
+    let mut s1: Vec<Poly> = (0..p.l).map(|_| s_poly(g, p.eta, SPat::Random)).collect();
+    let mut s2: Vec<Poly> = (0..p.k).map(|_| s_poly(g, p.eta, SPat::Random)).collect();
+    let t0: Vec<Poly> = (0..p.k).map(|_| t0_poly(g, T0Pat::Random)).collect();
+    let a_hat = r::expand_a(p, &rho);
+    let a_row: Vec<Poly> = a_hat[k].iter().map(r::ntt_inv).collect();
+    let s1_hat: Vec<Poly> = s1.iter().map(r::ntt).collect();
+    let w = r::ntt_inv(&r::matrix_vector_ntt(&a_hat, &s1_hat)[k]);
+    // all single-coefficient changes (j, m, e): s1[j][m] += e stays in range; effect on w[n]
+    let mut deltas: Vec<(usize, usize, i64, i64)> = Vec::new();
+    for j in 0..p.l {
+        for m in 0..256usize {
+            let c = if n >= m { a_row[j][n - m] } else { (q - a_row[j][n + 256 - m]) % q };
+            for e in -2 * p.eta..=2 * p.eta {
+                if e == 0 {
+                    continue;
+                }
+                let nv = s1[j][m] + e;
+                if nv < -p.eta || nv > p.eta {
+                    continue;
+                }
+                deltas.push((j, m, e, (e * c).rem_euclid(q)));
+            }
+        }
+    }
+    let mut by_val: HashMap<i64, usize> = HashMap::new();
+    for (i, d) in deltas.iter().enumerate() {
+        let _ = by_val.entry(d.3).or_insert(i);
+    }
+    // target residues for A*s1 at (k, n)
+    let targets: Vec<i64> = if high { (q - p.eta..q).collect() } else { (0..p.eta).collect() };
+    for (i1, d1) in deltas.iter().enumerate() {
+        for &t in &targets {
+            let need = (t - w[n] - d1.3).rem_euclid(q);
+            if let Some(&i2) = by_val.get(&need) {
+                let d2 = deltas[i2];
+                if i2 == i1 || (d2.0 == d1.0 && d2.1 == d1.1) {
+                    continue;
+                }
+                s1[d1.0][d1.1] += d1.2;
+                s1[d2.0][d2.1] += d2.2;
+                // s2 pushes the sum across the boundary
+                s2[k][n] = if high { p.eta } else { -p.eta };
+                // confirm with the reference
+                let s1h: Vec<Poly> = s1.iter().map(r::ntt).collect();
+                let w2 = r::ntt_inv(&r::matrix_vector_ntt(&a_hat, &s1h)[k]);
+                let raw = w2[n] + s2[k][n];
+                if (high && raw >= q) || (!high && raw < 0) {
+                    return Some(r::sk_encode(p, &rho, &key, &tr, &s1, &s2, &t0));
+                }
+                return None;
+            }
+        }
+    }
+    None
+}
